@@ -202,6 +202,63 @@ def unhandled_segments(sx):
     loop.cancel_all()
 
 
+def slow_callback(sx):
+    """the application's event handler suspends for several polling intervals inside the RFERR consumer's
+    on-handled callback while the unhandled consumer keeps running and more datagrams arrive: every datagram
+    still leaves the queue exactly once and only through a consumer that accepts it"""
+    import asyncio
+    from sx.vloop import VLoop, patched_time
+    from geckolib.async_spa import GeckoAsyncSpa
+    from geckolib.async_spa_descriptor import GeckoAsyncSpaDescriptor
+    from geckolib.driver import GeckoAsyncUdpProtocol, GeckoRFErrProtocolHandler, GeckoUnhandledProtocolHandler
+    loop = VLoop()
+    with patched_time(loop):
+        delay = [0.0, 0.25, 0.45][sx.choice("handler_suspends_for", 3)]
+        events = []
+
+        async def ev(e, **k):
+            events.append(e)
+            if delay:
+                await asyncio.sleep(delay)
+        spa = GeckoAsyncSpa(CLI_ID, GeckoAsyncSpaDescriptor(SRC_ID, "spa", DEST), None, ev)
+        proto = GeckoAsyncUdpProtocol(None, DEST)
+        spa._protocol = proto
+        pops = []
+        orig_pop = proto.queue.pop
+
+        def pop():
+            pops.append((proto.queue.head[0], asyncio.current_task().get_name()))
+            return orig_pop()
+        proto.queue.pop = pop
+        rf = GeckoRFErrProtocolHandler(async_on_handled=spa._async_on_rferr)
+        un = GeckoUnhandledProtocolHandler()
+        second = [b"RFERR", b"WHAT?", b"WCERR"][sx.choice("second_datagram", 3)]
+        gap = [0.05, 0.15, 0.3][sx.choice("second_arrives_after", 3)]
+
+        async def main():
+            t1 = asyncio.create_task(rf.consume(proto), name="rferr")
+            t2 = asyncio.create_task(un.consume(proto), name="unhandled")
+            proto.datagram_received(b"RFERR", PARMS)
+            await asyncio.sleep(gap)
+            proto.datagram_received(second, PARMS)
+            await asyncio.sleep(1.5)
+            t1.cancel()
+            t2.cancel()
+        loop.run_until_complete(main(), max_time=30.0)
+        sx.observe("pops", [(d, n) for d, n in pops])
+        got = [d for d, n in pops]
+        sx.check(sorted(got) == sorted([b"RFERR", second]), "seg.every-datagram-leaves-the-queue-exactly-once", lambda: str(pops))
+        for d, n in pops:
+            ok = (n == "unhandled") or (n == "rferr" and d == b"RFERR")
+            sx.check(ok, "seg.only-a-capable-consumer-takes-a-datagram", lambda: f"{d} popped by {n}")
+        # (a datagram that arrives while its consumer is busy in a slow callback may be discarded as unhandled:
+        #  the property allows either exit, but not both and not twice)
+        nrf = len([1 for d, n in pops if n == "rferr"])
+        sx.check(len(events) == nrf, "seg.each-consumed-rferr-handled-exactly-once", lambda: f"{len(events)} events for {nrf} RFERR")
+        sx.check(proto.queue.qsize() == 0, "seg.queue-drained")
+    loop.cancel_all()
+
+
 def misaddressed(sx):
     """a framed packet whose identifier pair is not this connection's has no effect"""
     from sx.vloop import patched_time
@@ -311,5 +368,6 @@ def units(tier):
         yield Unit(f"segment.{c[5:-15]}", consumer_segment(c), max_paths=50000)
     yield Unit("segment.waiter", waiter_segment, max_paths=50000)
     yield Unit("unhandled.two-segments", unhandled_segments)
+    yield Unit("slow-callback", slow_callback)
     yield Unit("misaddressed", misaddressed, max_paths=50000)
     yield Unit("head-age", head_age)
